@@ -213,3 +213,32 @@ func GenLegalReq(t *Tape, fc byte) Req {
 	}
 	return r
 }
+
+// SmallReq shrinks a legal request to a small one of the same function (short frames: dense cut / corruption coverage).
+func SmallReq(r *Req) {
+	switch r.FC {
+	case 1, 2:
+		r.Qty = 9
+	case 3, 4:
+		r.Qty = 2
+	case 15:
+		r.Coils = r.Coils[:min(len(r.Coils), 9)]
+		for len(r.Coils) < 9 {
+			r.Coils = append(r.Coils, len(r.Coils)%2 == 0)
+		}
+	case 16:
+		r.Regs = append(r.Regs[:0:0], r.Regs[:min(len(r.Regs), 4)]...)
+		for len(r.Regs) < 4 {
+			r.Regs = append(r.Regs, byte(len(r.Regs)))
+		}
+	case 23:
+		r.Qty = 2
+		r.Regs = append(r.Regs[:0:0], r.Regs[:2]...)
+	}
+	if r.FC != 5 && r.FC != 6 && int(r.Addr)+2000 > 65536 {
+		r.Addr = 100
+	}
+	if r.FC == 23 && int(r.WAddr)+200 > 65536 {
+		r.WAddr = 200
+	}
+}
